@@ -85,6 +85,64 @@ def natList (x : Sexp) : Option (List Nat) :=
   | .list xs => decodeAll Sexp.asNat? xs
   | _ => none
 
+/-- what the harness asks of every nested map, in preorder over the `Rewritten` entries:
+`list_sources` for `t = 0..=len`, `list_targets` for `s = 0..=max source + 1` -/
+def nestedExpected : List (Entry String) → List (List (List Nat) × List (List (Entry String)))
+  | [] => []
+  | .unmod _ _ :: r => nestedExpected r
+  | .rew _ _ a b ns :: r =>
+    let cnt := match (ns.map Entry.src).max? with
+      | some m => m + 2
+      | none => 1
+    ((List.range (b - a + 1)).map (listSources ns), (List.range cnt).map (listTargets ns)) ::
+      (nestedExpected ns ++ nestedExpected r)
+
+def decodeNested : Sexp → Option (List (List Nat) × List (List (Entry String)))
+  | .list [.list srcs, .list tgts] =>
+    match decodeAll natList srcs, decodeTargets 0 tgts with
+    | some a, some b => some (a, b)
+    | _, _ => none
+  | _ => none
+
+def nestedBeq : List (List (List Nat) × List (List (Entry String))) →
+    List (List (List Nat) × List (List (Entry String))) → Bool
+  | [], [] => true
+  | (a, b) :: r, (a', b') :: r' =>
+    decide (a = a') && b.length == b'.length && (b.zip b').all (fun p => entriesBeq p.1 p.2) && nestedBeq r r'
+  | _, _ => false
+
+/-- `expand_with_detail` of one source instruction: `none` or `(d instrs (r cal 0 len entries) samePlain)` -/
+def decodeDetail (idx : Nat) : Sexp → Option (Option (List Instr × Entry String × Bool))
+  | .atom "none" => some none
+  | .list [.atom "d", .list is, t, .atom same] =>
+    match decodeAll decodeInstr is, decodeTarget idx t with
+    | some is, some e => some (some (is, e, same == "true"))
+    | _, _ => none
+  | _ => none
+
+def decodeDetails : Nat → List Sexp → Option (List (Option (List Instr × Entry String × Bool)))
+  | _, [] => some []
+  | k, x :: xs => match decodeDetail k x, decodeDetails (k + 1) xs with
+    | some a, some as => some (a :: as)
+    | _, _ => none
+
+/-- model answer and spec for `expand_with_detail` on node `n` (source index `k`) -/
+def detailCheck (k : Nat) (n : Node Instr String) (o : Option (List Instr × Entry String × Bool)) : Bool × Bool :=
+  match expandWithDetail n, n, o with
+  | none, _, none => (true, true)
+  | some (is, d), .exp _ c body, some (is', e, same) =>
+    let agree := decide (is = is') && entriesBeq [.rew k c d.start d.stop d.entries] [e] && same
+    -- before anything is hoisted the detail is ALWAYS a well-formed map of the calibration body
+    let spec := match e with
+      | .rew _ c' a b ns => c' == c && a == 0 && b == is'.length && wfB body is' ns
+      | _ => false
+    (agree, spec)
+  | _, _, _ => (false, false)
+
+def byCalEntry : Sexp → Option (String × List Nat)
+  | .list [.str c, l] => (natList l).map (c, ·)
+  | _ => none
+
 /-- where hoisted leaves sit in calibration bodies: first / middle / last position -/
 def hoistPositions : List (Node Instr String) → List String
   | [] => []
@@ -108,9 +166,11 @@ def handle (inp out : Sexp) : CaseResult :=
     | none => .bad s!"undecodable input {inp}"
     | some nodes =>
       match out with
-      | .list [.atom "ok", .list body, .list es, .list srcs, .list tgts, .atom same] =>
-        match decodeAll decodeInstr body, decodeAll decodeEntry es, decodeAll natList srcs with
-        | some body, some m, some srcs =>
+      | .list [.atom "ok", .list body, .list es, .list srcs, .list tgts, .atom same, .list details,
+          .list byCal, .list nested] =>
+        match decodeAll decodeInstr body, decodeAll decodeEntry es, decodeAll natList srcs,
+          decodeDetails 0 details, decodeAll byCalEntry byCal, decodeAll decodeNested nested with
+        | some body, some m, some srcs, some details, some byCal, some nested =>
           -- list_targets answers: one list of targets per source index 0..=|src|
           let tgts? : Option (List (List (Entry String))) :=
             decodeTargets 0 tgts
@@ -125,9 +185,22 @@ def handle (inp out : Sexp) : CaseResult :=
             -- the model's answers to the queries the harness asked
             let mSrcs := (List.range (body.length + 1)).map (listSources mMap)
             let mTgts := (List.range (nodes.length + 1)).map (listTargets mMap)
+            -- instruction-level entry point, calibration-source queries, queries on every nested map
+            let detailRes := (List.range nodes.length).map fun k =>
+              match nodes[k]?, details[k]? with
+              | some n, some o => detailCheck k n o
+              | _, _ => (false, false)
+            let detailAgree := details.length == nodes.length && detailRes.all (·.1)
+            let detailSpec := detailRes.all (·.2)
+            let byCalAgree := byCal.all fun (c, l) => decide (listSourcesByCal m c = l)
+            let byCalSpec := byCal.all fun (c, l) => l.all fun s => match nodes[s]? with
+              | some (.exp _ c' _) => c' == c
+              | _ => false
+            let nestedAgree := nestedBeq (nestedExpected m) nested
             let agree := mOk && decide (mBody = body) && entriesBeq mMap m && same &&
               decide (mSrcs = srcs) && mTgts.length == tgts.length &&
-              (mTgts.zip tgts).all (fun p => entriesBeq p.1 p.2)
+              (mTgts.zip tgts).all (fun p => entriesBeq p.1 p.2) &&
+              detailAgree && byCalAgree && nestedAgree
             -- the spec on the implementation's output
             let wf := wfB nodes body m
             -- list_sources / list_targets on the implementation: inverse of each other, single-valued
@@ -138,9 +211,10 @@ def handle (inp out : Sexp) : CaseResult :=
               (srcs.getD body.length []).isEmpty &&
               tgts.all (fun l => l.length ≤ 1)
             let bodyOk := decide (body = flat alive nodes)
-            let specOk := wf && inverse && same && bodyOk
+            let specOk := wf && inverse && same && bodyOk && detailSpec && byCalSpec
             let dead := deadInBody alive nodes
-            let kf := !wf && inverse && same && bodyOk && dead && exactB alive true false 0 0 nodes m
+            let kf := !wf && inverse && same && bodyOk && detailSpec && byCalSpec && dead &&
+              exactB alive true false 0 0 nodes m
             let tags :=
               ["ok", s!"depth{min (mapDepth m) 4}", s!"size{min (mapSize m / 4 * 4) 24}",
                s!"top{min m.length 6}", s!"out{min body.length 8}"] ++
@@ -150,12 +224,15 @@ def handle (inp out : Sexp) : CaseResult :=
               (hoistPositions nodes).eraseDups ++
               (if nodes.any (fun n => match n with | .exp i _ _ => i.kind == "measurement" | _ => false)
                 then ["measure-cal"] else []) ++
+              (if nodes.any (fun n => match n with | .leaf i => i.text.startsWith "DAGGER" | .exp i _ _ => i.text.startsWith "DAGGER")
+                then ["modified-gate"] else []) ++
+              (if byCal.any (fun p => p.2.length ≥ 2) then ["calibration-used-twice-at-top"] else []) ++
               (if kf then ["kf:C19/hoisted-instruction-stale-unmodified-entries"] else [])
             { agree := agree, specOk := specOk,
               nontrivial := m.any (fun e => match e with | .rew .. => true | _ => false),
               tags := tags,
-              detail := s!"wf={wf} inverse={inverse} same={same} bodyOk={bodyOk} model={repr model} impl={out}" }
-        | _, _, _ => .bad s!"undecodable output {out}"
+              detail := s!"wf={wf} inverse={inverse} same={same} bodyOk={bodyOk} detailAgree={detailAgree} detailSpec={detailSpec} byCalAgree={byCalAgree} byCalSpec={byCalSpec} nestedAgree={nestedAgree} model={repr model} impl={out}" }
+        | _, _, _, _, _, _ => .bad s!"undecodable output {out}"
       | _ =>
         { agree := false, specOk := false, nontrivial := false, tags := ["impl-error-or-crash"],
           detail := s!"impl={out}" }
